@@ -43,7 +43,7 @@ func H_SelectorStep() {
 	}
 	a.F[0], a.F[1] = 3, 5
 	if k == drive.KSetCReg {
-		a.Color = ivg.RGBAColor(color.RGBA{vp.U8("r"), vp.U8("g"), vp.U8("b"), 0xff})
+		a.Color = drive.AnyColor() // every colour kind: flat (any bytes), palette index, CREG reference, blend
 	}
 	drive.Do(&e, k, &a)
 	drive.Do(&z, k, &a)
